@@ -165,3 +165,27 @@ def c_temperature(v, uf, ut):
             raise NotARepresentation(f'temperature unit {u!r}')
     k = v if uf == 'K' else v + 273.15
     return k if ut == 'K' else k - 273.15
+
+
+class library_tables:
+    """Context: evaluate the reference *structure* with the library's own unit tables (validated against SI by C01).
+
+    Used where a check needs conversions that agree with the library to rounding (1e-9), e.g. to translate
+    query points, so that the 1e-4 table-precision differences do not mask or mimic other errors.
+    """
+
+    def __enter__(self):
+        from pygaps.units import converter_unit as cu
+        g = globals()
+        self.saved = {k: dict(g[k]) for k in ('P_UNITS', 'MOLAR', 'MASS', 'VOL')}
+        for k, lib in (('P_UNITS', cu._PRESSURE_UNITS), ('MOLAR', cu._MOLAR_UNITS), ('MASS', cu._MASS_UNITS), ('VOL', cu._VOLUME_UNITS)):
+            g[k].clear()
+            g[k].update(lib)
+        return self
+
+    def __exit__(self, *a):
+        g = globals()
+        for k, v in self.saved.items():
+            g[k].clear()
+            g[k].update(v)
+        return False
